@@ -371,9 +371,12 @@ class MultiPort(BaseIOPort):
                 port.send(message)
 
     def _receive(self, block=True):
+        # Only collect what is pending: multi_receive(block=True) is an
+        # endless generator, so extend() would never return. receive()
+        # does the waiting.
         self._messages.extend(multi_receive(self.ports,
                                             yield_ports=self.yield_ports,
-                                            block=block))
+                                            block=False))
 
 
 def multi_receive(ports, yield_ports=False, block=True):
